@@ -154,6 +154,15 @@ Proof. split; vm_compute; reflexivity. Qed.
 Example C11_ex_infer : (64 mod Z.quot 64 4 = 0)%Z /\ Z.quot 64 (Z.quot 64 4) = 4%Z.
 Proof. split; reflexivity. Qed.
 
+(* ---- tie to the source: Gen/Funcs.v is TRANSLATED from the Go code by tools/gotrans on every run *)
+From GoMC Require Gen.Funcs Proofs.C11_tie.
+Theorem C11_calc_size_translated : forall b n r : Z, (0 <= b <= 64)%Z -> (0 <= n < 2 ^ 62)%Z -> calc_size b n = Some r -> Funcs.level_calcBitStorageSize b n = r.
+Proof. exact C11_tie.tie_calcBitStorageSize. Qed.
+Theorem C11_calc_bits_translated : forall n l r : Z, (0 <= n < 2 ^ 62)%Z -> (0 <= l < 2 ^ 62)%Z -> calc_bits n l = Some r -> Funcs.level_calcBitsPerValue n l = r.
+Proof. exact C11_tie.tie_calcBitsPerValue. Qed.
+Theorem C11_calc_index_translated : forall st n, (0 <= n < 2 ^ 31)%Z -> (0 < vpl st <= 64)%Z -> (0 <= bits st <= 64)%Z -> Funcs.level_BitStorage_calcIndex n (vpl st) (bits st) = calc_index st n.
+Proof. exact C11_tie.tie_calcIndex. Qed.
+
 Print Assumptions C11_histories.
 Print Assumptions C11_get_set.
 Print Assumptions C11_set_raw_bits.
@@ -176,3 +185,6 @@ Print Assumptions C11_size_refused_new.
 Print Assumptions C11_size_refused_fix.
 Print Assumptions C11_infer_refuted.
 Print Assumptions C11_infer_partial.
+Print Assumptions C11_calc_size_translated.
+Print Assumptions C11_calc_bits_translated.
+Print Assumptions C11_calc_index_translated.
